@@ -95,3 +95,164 @@ Proof.
   unfold date_fields_agree in A. destruct (days_to_date d) as [[y m] dd]. destruct A as (-> & _).
   wcases w Hw; reflexivity.
 Qed.
+
+Ltac agree_destruct A d :=
+  unfold date_fields_agree in A; let y := fresh "y" in let m := fresh "m" in let dd := fresh "dd" in
+  destruct (days_to_date_rd d) as [Vv _]; pose proof (doy_spec d) as Hdoy; pose proof (week_spec d) as [Hwk _];
+  destruct (days_to_date d) as [[y m] dd]; destruct A as (Abc & Ay & Am & Ad & Adoy & Awd & Awk); destruct Vv as (Vy & Vm & Vd).
+
+Lemma render_y F d w : date_fields_agree F d -> 1 <= w -> format_date_part (repeat_c 121 (Z.to_nat w)) d = Ok (render_field F 121 w).
+Proof.
+  intros A Hw. rewrite fdp_run by exact Hw. cbv zeta. cbn [Z.eqb Pos.eqb]. unfold render_field. cbv zeta. agree_destruct A d. rewrite Ay.
+  wcases w Hw; rewrite ?pad_signed_zero_padded_i, ?pad_zero_padded; reflexivity.
+Qed.
+Lemma render_q F d w : date_fields_agree F d -> 1 <= w -> format_date_part (repeat_c 113 (Z.to_nat w)) d = Ok (render_field F 113 w).
+Proof.
+  intros A Hw. rewrite fdp_run by exact Hw. cbv zeta. cbn [Z.eqb Pos.eqb]. unfold render_field. cbv zeta. agree_destruct A d. rewrite Am. clear Am.
+  wcases w Hw; month_split m Vm; rewrite ?pad_zero_padded, ?dec_u_to_string; reflexivity.
+Qed.
+Lemma render_M F d w : date_fields_agree F d -> 1 <= w -> format_date_part (repeat_c 77 (Z.to_nat w)) d = Ok (render_field F 77 w).
+Proof.
+  intros A Hw. rewrite fdp_run by exact Hw. cbv zeta. cbn [Z.eqb Pos.eqb]. unfold render_field, format_month. cbv zeta.
+  unfold date_fields_agree in A. destruct (days_to_date_rd d) as [Vv _]. destruct (days_to_date d) as [[y m] dd]. destruct A as (_ & _ & Am & _). destruct Vv as (_ & Vm & _).
+  rewrite Am. destruct (month_names m Vm) as (N1 & N2 & N3).
+  wcases w Hw; rewrite ?pad_zero_padded, ?N1, ?N2, ?N3; reflexivity.
+Qed.
+Lemma get_length_over len dflt mx : get_length len dflt mx = (if mx <? len then dflt else len).
+Proof. reflexivity. Qed.
+Lemma render_w F d w : date_fields_agree F d -> 1 <= w -> format_date_part (repeat_c 119 (Z.to_nat w)) d = Ok (render_field F 119 w).
+Proof.
+  intros A Hw. rewrite fdp_run by exact Hw. cbv zeta. cbn [Z.eqb Pos.eqb]. unfold render_field. cbv zeta. agree_destruct A d.
+  rewrite Awk, Hwk, pad_zero_padded. reflexivity.
+Qed.
+Lemma render_d F d w : date_fields_agree F d -> 1 <= w -> format_date_part (repeat_c 100 (Z.to_nat w)) d = Ok (render_field F 100 w).
+Proof.
+  intros A Hw. rewrite fdp_run by exact Hw. cbv zeta. cbn [Z.eqb Pos.eqb]. unfold render_field. cbv zeta. agree_destruct A d.
+  rewrite Ad, pad_zero_padded. reflexivity.
+Qed.
+Lemma render_D F d w : date_fields_agree F d -> 1 <= w -> format_date_part (repeat_c 68 (Z.to_nat w)) d = Ok (render_field F 68 w).
+Proof.
+  intros A Hw. rewrite fdp_run by exact Hw. cbv zeta. cbn [Z.eqb Pos.eqb]. unfold render_field. cbv zeta. agree_destruct A d.
+  rewrite Hdoy, Adoy, pad_zero_padded. reflexivity.
+Qed.
+Lemma render_e F d w : date_fields_agree F d -> 1 <= w -> format_date_part (repeat_c 101 (Z.to_nat w)) d = Ok (render_field F 101 w).
+Proof.
+  intros A Hw. rewrite fdp_run by exact Hw. cbv zeta. cbn [Z.eqb Pos.eqb]. unfold render_field, format_wday. cbv zeta. agree_destruct A d.
+  assert (W0 : days_to_wday d false = vf_wd F) by (rewrite Awd; unfold days_to_wday; lia).
+  assert (W1 : days_to_wday d true + 1 = (vf_wd F + 6) mod 7 + 1) by (rewrite Awd; unfold days_to_wday; lia).
+  assert (Wr : 0 <= vf_wd F <= 6) by (rewrite Awd; lia). destruct (wday_names (vf_wd F) Wr) as (N1 & N2 & N3 & N4).
+  rewrite W0, W1. wcases w Hw; rewrite ?pad_zero_padded, ?N1, ?N2, ?N3, ?N4; reflexivity.
+Qed.
+
+Theorem date_field_render F d c w : date_fields_agree F d -> 1 <= w -> is_date_sym c = true ->
+  format_date_part (repeat_c c (Z.to_nat w)) d = Ok (render_field F c w).
+Proof.
+  intros A Hw Hc. unfold is_date_sym in Hc. cbn [existsb] in Hc. rewrite !orb_true_iff, !Z.eqb_eq in Hc.
+  destruct Hc as [-> | [-> | [-> | [-> | [-> | [-> | [-> | [-> | Hc]]]]]]]]; [.. | discriminate Hc].
+  - apply render_G; assumption.
+  - apply render_y; assumption.
+  - apply render_q; assumption.
+  - apply render_M; assumption.
+  - apply render_w; assumption.
+  - apply render_d; assumption.
+  - apply render_D; assumption.
+  - apply render_e; assumption.
+Qed.
+
+(* ---------- time symbols ---------- *)
+Definition time_fields_agree (F : vfields) (n off : Z) : Prop :=
+  0 <= n < NANOS_PER_DAY /\ vf_hour F = n / NANOS_PER_HOUR /\ vf_minute F = n / NANOS_PER_MINUTE mod 60 /\
+  vf_second F = n / NANOS_PER_SEC mod 60 /\ vf_subsec F = n mod NANOS_PER_SEC /\ vf_offset F = off.
+
+Lemma ftp_run c w n off : 1 <= w ->
+  format_time_part (repeat_c c (Z.to_nat w)) n off =
+  (let chars := repeat_c c (Z.to_nat w) in let len := w in
+   let '(hour24, minute, second) := nanos_to_time n in
+   if c =? 97 then format_period n (get_length len 3 5) false
+   else if c =? 98 then format_period n (get_length len 3 5) true
+   else if c =? 104 then Ok (zero_padded (if hour24 mod 12 =? 0 then 12 else hour24 mod 12) (get_length len 2 2))
+   else if c =? 72 then Ok (zero_padded hour24 (get_length len 2 2))
+   else if c =? 75 then Ok (zero_padded (hour24 mod 12) (get_length len 2 2))
+   else if c =? 107 then Ok (zero_padded (if hour24 =? 0 then 24 else hour24) (get_length len 2 2))
+   else if c =? 109 then Ok (zero_padded minute (get_length len 2 2))
+   else if c =? 115 then Ok (zero_padded second (get_length len 2 2))
+   else if c =? 110 then
+     let length0 := get_length len 3 5 in
+     let length1 := if length0 =? 4 then 6 else if length0 =? 5 then 9 else length0 in
+     let subsec := wrap_u32 (n mod NANOS_PER_SEC) in
+     Ok (zero_padded (subsec / 10 ^ (9 - length1)) length1)
+   else if c =? 88 then Ok (format_zone len off true)
+   else if c =? 120 then Ok (format_zone len off false)
+   else Ok chars).
+Proof.
+  intros Hw. unfold format_time_part. cbv zeta. rewrite first_char_repeat by lia. rewrite repeat_c_length, Z2Nat.id by lia. reflexivity.
+Qed.
+
+Lemma format_period_plain n st : 0 <= n < NANOS_PER_DAY -> 1 <= st <= 5 ->
+  format_period n st false = Ok (period_text st (12 <=? n / NANOS_PER_HOUR)).
+Proof.
+  intros Hn Hst. unfold format_period. cbv zeta.
+  assert (T : wrap_u32 (n / NANOS_PER_SEC) mod SECS_PER_DAY = n / NANOS_PER_SEC) by (unfold wrap_u32; revert Hn; unfold_consts; intros; lia).
+  rewrite T. assert (P : (n / NANOS_PER_SEC <? 43200) = negb (12 <=? n / NANOS_PER_HOUR)).
+  { revert Hn. unfold_consts. intros Hn. destruct (Z.ltb_spec (n / 1000000000) 43200); destruct (Z.leb_spec 12 (n / 3600000000000)); try reflexivity; lia. }
+  assert (C : st = 1 \/ st = 2 \/ st = 3 \/ st = 4 \/ st = 5) by lia.
+  destruct C as [-> | [-> | [-> | [-> | ->]]]]; cbn [Z.sub Z.add Z.opp Z.pos_sub Z.to_nat Pos.to_nat Pos.iter_op Nat.add Pos.pred_double PERIOD_FORMATS nth_error Z.leb Z.compare andb];
+  rewrite P; destruct (12 <=? n / NANOS_PER_HOUR); reflexivity.
+Qed.
+
+Lemma format_period_b n st : 0 <= n < NANOS_PER_DAY -> 1 <= st <= 5 ->
+  format_period n st true =
+  Ok (let h := n / NANOS_PER_HOUR in let m := n / NANOS_PER_MINUTE mod 60 in let s := n / NANOS_PER_SEC mod 60 in
+      if (h =? 0) && (m =? 0) && (s =? 0) then (if st =? 5 then S_[109;105] else S_[109;105;100;110;105;103;104;116])
+      else if (h =? 12) && (m =? 0) && (s =? 0) then (if st =? 5 then S_[110] else S_[110;111;111;110])
+      else period_text st (12 <=? h)).
+Proof.
+  intros Hn Hst. unfold format_period. cbv zeta.
+  assert (T : wrap_u32 (n / NANOS_PER_SEC) mod SECS_PER_DAY = n / NANOS_PER_SEC) by (unfold wrap_u32; revert Hn; unfold_consts; intros; lia).
+  rewrite T.
+  assert (P : (n / NANOS_PER_SEC <? 43200) = negb (12 <=? n / NANOS_PER_HOUR)).
+  { revert Hn. unfold_consts. intros Hn. destruct (Z.ltb_spec (n / 1000000000) 43200); destruct (Z.leb_spec 12 (n / 3600000000000)); try reflexivity; lia. }
+  assert (P0 : (n / NANOS_PER_SEC =? 0) = (n / NANOS_PER_HOUR =? 0) && (n / NANOS_PER_MINUTE mod 60 =? 0) && (n / NANOS_PER_SEC mod 60 =? 0)).
+  { revert Hn. unfold_consts. intros Hn. apply eq_true_iff_eq. rewrite !andb_true_iff, !Z.eqb_eq. lia. }
+  assert (P12 : (n / NANOS_PER_SEC =? 43200) = (n / NANOS_PER_HOUR =? 12) && (n / NANOS_PER_MINUTE mod 60 =? 0) && (n / NANOS_PER_SEC mod 60 =? 0)).
+  { revert Hn. unfold_consts. intros Hn. apply eq_true_iff_eq. rewrite !andb_true_iff, !Z.eqb_eq. lia. }
+  rewrite P, P0, P12.
+  assert (C : st = 1 \/ st = 2 \/ st = 3 \/ st = 4 \/ st = 5) by lia.
+  destruct C as [-> | [-> | [-> | [-> | ->]]]]; cbn [Z.sub Z.add Z.opp Z.pos_sub Z.to_nat Pos.to_nat Pos.iter_op Nat.add Pos.pred_double PERIOD_FORMATS nth_error Z.leb Z.compare Z.eqb Pos.eqb andb];
+  destruct ((n / NANOS_PER_HOUR =? 0) && (n / NANOS_PER_MINUTE mod 60 =? 0) && (n / NANOS_PER_SEC mod 60 =? 0)); try reflexivity;
+  destruct ((n / NANOS_PER_HOUR =? 12) && (n / NANOS_PER_MINUTE mod 60 =? 0) && (n / NANOS_PER_SEC mod 60 =? 0)); try reflexivity;
+  destruct (12 <=? n / NANOS_PER_HOUR); reflexivity.
+Qed.
+
+Lemma format_zone_text len off z : 1 <= len -> format_zone len off z = zone_text (if 5 <? len then 3 else len) off z.
+Proof.
+  intros Hw. unfold format_zone, zone_text. destruct (z && (off =? 0)); [reflexivity|]. cbv zeta.
+  rewrite !pad_zero_padded.
+  assert (E1 : Z.abs off mod 3600 / 60 = Z.abs off / 60 mod 60) by lia.
+  assert (E2 : Z.abs off mod 3600 mod 60 = Z.abs off mod 60) by lia. rewrite E1, E2.
+  wcases len Hw; try reflexivity; try (destruct (_ =? 0); reflexivity).
+Qed.
+
+Lemma over35 w : 1 <= w -> 1 <= (if 5 <? w then 3 else w) <= 5.
+Proof. intros. destruct (Z.ltb_spec 5 w); lia. Qed.
+
+Theorem time_field_render F n off c w : time_fields_agree F n off -> 1 <= w -> is_time_sym c = true ->
+  format_time_part (repeat_c c (Z.to_nat w)) n off = Ok (render_field F c w).
+Proof.
+  intros (Hn & Ah & Am & As & Ass & Ao) Hw Hc. rewrite ftp_run by exact Hw. cbv zeta. rewrite (nanos_to_time_spec n Hn).
+  unfold is_time_sym in Hc. cbn [existsb] in Hc. rewrite !orb_true_iff, !Z.eqb_eq in Hc.
+  assert (Ew : wrap_u32 (n mod NANOS_PER_SEC) = n mod NANOS_PER_SEC) by (unfold wrap_u32, NANOS_PER_SEC; lia).
+  destruct Hc as [-> | [-> | [-> | [-> | [-> | [-> | [-> | [-> | [-> | [-> | [-> | Hc]]]]]]]]]]]; [.. | discriminate Hc];
+  cbn [Z.eqb Pos.eqb]; unfold render_field; cbv zeta; rewrite ?Ah, ?Am, ?As, ?Ass, ?Ao, ?pad_zero_padded, ?get_length_over.
+  - rewrite format_period_plain; [reflexivity | exact Hn | apply over35; exact Hw].
+  - rewrite format_period_b; [reflexivity | exact Hn | apply over35; exact Hw].
+  - reflexivity.
+  - reflexivity.
+  - reflexivity.
+  - reflexivity.
+  - reflexivity.
+  - reflexivity.
+  - rewrite Ew. wcases w Hw; rewrite ?pad_zero_padded; try (change (10 ^ (9 - 9)) with 1; rewrite Z.div_1_r); reflexivity.
+  - rewrite format_zone_text by exact Hw. reflexivity.
+  - rewrite format_zone_text by exact Hw. reflexivity.
+Qed.
